@@ -100,11 +100,13 @@ pub struct Explorer<'a> {
     pub states: Vec<StateRec>,
     pub keys: Vec<Arc<[u8]>>,
     pub seen: HashMap<Arc<[u8]>, u32>,
+    /// the reference's own state after each root's prefix (history-level rules)
+    pub root_ref: Vec<Option<(Vec<crate::refmodel::RE>, usize)>>,
 }
 
 impl<'a> Explorer<'a> {
     pub fn new(ctx: &'a Ctx<'a>, roots: Vec<Root>, alpha: Vec<Op>) -> Explorer<'a> {
-        Explorer { ctx, roots, alpha, states: vec![], keys: vec![], seen: HashMap::new() }
+        Explorer { ctx, roots, alpha, states: vec![], keys: vec![], seen: HashMap::new(), root_ref: vec![] }
     }
 
     /// (root, operations after the root's prefix)
@@ -219,6 +221,12 @@ impl<'a> Explorer<'a> {
             }
         }
         if do_transitions && opts.transitions {
+            // the reference's own state after this history (C03 history-level rule)
+            let ref_pre = if self.ctx.sel & p(3) != 0 {
+                self.root_ref.get(root).cloned().flatten().and_then(|start| crate::refmodel::replay(self.ctx.u, start, &path))
+            } else {
+                None
+            };
             for (oi, &op) in self.alpha.iter().enumerate() {
                 if let Some(sk) = self.skipped(opts, root, &path, Some(op), &[0]) {
                     let vr = self.skip_violation(sk, root, &hist, Some(op));
@@ -228,7 +236,7 @@ impl<'a> Explorer<'a> {
                     continue;
                 }
                 crate::contain::mark(0, root as u32, &path, Some(op));
-                let t = run_transition(self.ctx, &cfg, &hist, op, Some(&key), &mut out.stats);
+                let t = run_transition_h(self.ctx, &cfg, &hist, op, Some(&key), ref_pre.as_ref(), &mut out.stats);
                 if let Some(m) = t.machinery {
                     out.machinery = Some(format!("{m} (history {:?}, op {:?})", hist, op));
                     return out;
@@ -295,6 +303,12 @@ impl<'a> Explorer<'a> {
             return res;
         }
         let max_depth = opts.depth_cap.map(|c| c.min(opts.max_depth)).unwrap_or(opts.max_depth);
+        // the reference's own state after each root's prefix
+        self.root_ref = self
+            .roots
+            .iter()
+            .map(|r| if self.ctx.sel & p(3) != 0 { crate::refmodel::replay(self.ctx.u, (vec![], r.cfg.limit), &r.prefix) } else { None })
+            .collect();
         // roots
         let mut frontier: Vec<u32> = vec![];
         for (ri, r) in self.roots.iter().enumerate() {
